@@ -149,6 +149,7 @@ def shrink(case, sig):
 def run(prop, tier, seed, replay=None):
     out = common.Outcome(prop, tier, seed)
     proof = common.props_check(prop)
+    common.coq_make(["theories/DF/AggCase.vo"])        # evaluation library of the generated case files
     rng = random.Random(seed * 1000003 + 6)
     if replay:
         cases = [json.load(open(replay))["replay"]["case"]]
